@@ -297,7 +297,7 @@ func c17Gen(t *rapid.T) c17Case {
 func TestVerif_C17(t *testing.T) {
 	defer vfStats.dump()
 	vfStats.Property = "C17"
-	sub := vfSub[c17Case]{Prop: "C17", Name: "gen", Checks: vfN(6000, 2400000), Gen: c17Gen, Check: c17Check,
+	sub := vfSub[c17Case]{Prop: "C17", Name: "gen", Checks: vfN(6000, 1200000), Gen: c17Gen, Check: c17Check,
 		Sample: func(c c17Case) any {
 			return map[string]any{"len": len(c.X), "x": vfQ(c.X[:min(len(c.X), 70)])}
 		}}
